@@ -318,6 +318,12 @@ class E(Model):
     def a_loc(self, I):
         return Loc(self)
 
+    def invert(self, I):
+        return E("not", self)
+
+    def m_isin(self, I, other):
+        return E("isin", self, other)
+
     def a_columns(self, I):
         return Cols(self)
 
@@ -422,8 +428,11 @@ def h_filters(I, cn_fi, dup_fi, cols_fi):
     if which == 0:
         out = I.call_function(cn_fi, [df], {}, force_inline=True)
         dsl.cover(I, "filter.zero-copy-number")
-        want = E("loc", df, E("cmp", "Gt", E("getitem", df, "major_cn"), 0))
-        P.check("filter.zero-copy-number", isinstance(out, E) and _same(out.t, want.t), "exactly the rows with major_cn > 0 are kept", kind="term")
+        positive = E("cmp", "Gt", E("getitem", df, "major_cn"), 0)
+        bad = E("unique", E("loc", df, (E("not", positive), "mutation_id")))
+        want = E("loc", df, E("not", E("isin", E("getitem", df, "mutation_id"), bad)))
+        P.check("filter.zero-copy-number", isinstance(out, E) and _same(out.t, want.t),
+                "every row of a mutation that has a row without a positive major copy number is dropped (the mutation goes entirely, as the statement demands)", kind="term")
     elif which == 1:
         S = alg.sym("n_samples", "Int")
         P.assume(P.z(S) >= 1)
